@@ -38,53 +38,63 @@ def batch_run(ctx, report, facts, config, rule="C04.FANOUT"):
         detail = "controller.run(data.0, &mut self.dispatcher)" if ok else "controller.run is not given (data.0, &mut self.dispatcher): %s / %s" % ((b1, p1), (b2, p2))
     report.ob(rule, "RUN/<BatchControllerSystem as System>::run/dispatcher-arg", ok, detail, site=b.loc(), config=config)
     # MultiDispatcher::run: plan once, then exactly n dispatches
+    from .. import semq as Q
+    from ..semcov import LIFECYCLE_NAMES, sroot
+    from ..sem import Evaluator, Policy
     b = F.timpl(facts, A.T_BATCHCTRL, A.MD, "run")
     report.touched(b, config)
-    bt = prog.bt(b)
-    cfg = bt.cfg
-    trs = [t for t in traversals(prog, b) if t.kind == "for"]
-    plans = [bb for bb, t in b.normal_calls() if Callee(t["func"]).name == "plan" and Callee(t["func"]).trait == A.T_MULTICTRL]
-    disp = [bb for bb, t in b.normal_calls() if Callee(t["func"]).name in F.LIFECYCLE[F.RUN] and Callee(t["func"]).self_head == A.DISP]
+    ev = Evaluator(facts, Policy(opaque_names=LIFECYCLE_NAMES | set(["plan", "system_data"])))
+    ends = ev.eval(b)
+    rets = [e for e in ends if e.kind == "return"]
     problems = []
-    if len(plans) != 1 or cfg.count(lambda x: x in plans) != (1, 1):
-        problems.append("`plan` is not called exactly once on every path")
-    if len(trs) != 1:
-        problems.append("expected exactly one loop, found %d" % len(trs))
-    else:
-        tr = trs[0]
-        if not tr.full:
-            problems.append("loop is not a full-forward traversal: " + tr.why)
-        src = tr.source
-        okr = False
-        if isinstance(src, tuple) and src[0] == "agg" and src[2] == "std::ops::Range::Range" and len(src[3]) == 2 and plans:
-            lo, hi = src[3]
-            okr = lo == ("int", 0) and isinstance(hi, tuple) and hi[0] == "call" and hi[1] == plans[0]
-        if not okr:
-            problems.append("loop range is not the half-open 0..n with n = result of `plan` (found %s)" % (src[:3] if isinstance(src, tuple) else src,))
-        inner = [bb for bb in disp if bb in tr.loop]
-        outer = [bb for bb in disp if bb not in tr.loop]
+    if not rets:
+        problems.append("no normal path")
+    is_plan = lambda c: c.name == "plan" and c.trait == A.T_MULTICTRL
+    is_disp = lambda c: c.name in F.LIFECYCLE[F.RUN] and c.self_head == A.DISP
+    for e in rets:
+        events = e.path.events
+        plans = [(i_, x) for i_, x in enumerate(events) if x[0] == "call" and is_plan(x[2])]
+        loops = [(i_, x) for i_, x in enumerate(events) if x[0] == "loop"]
+        if len(plans) != 1 or Q.calls_in([x for _, x in loops], is_plan, deep=True):
+            problems.append("`plan` is not called exactly once on every path")
+            continue
+        ppos, pcall = plans[0]
+        if len(loops) != 1:
+            problems.append("expected exactly one loop, found %d" % len(loops))
+        else:
+            lpos, lx = loops[0]
+            L = lx[1]
+            if not Q.is_full(L) or L.kind == "while" or L.stages:
+                problems.append("loop is not a full-forward traversal")
+            rng = Q.range_of(L)
+            if not (rng is not None and rng[0] == ("int", 0) and Q.strip(ev, rng[1]) == pcall[4]):
+                problems.append("loop range is not the half-open 0..n with n = result of `plan` (found %s)" % ((L.source or ("?",))[:3],))
+            if ppos > lpos:
+                problems.append("`plan` does not precede the loop")
+            for it in L.iters:
+                if it.end != "continue":
+                    continue
+                ds = Q.calls_in(it.path.events, is_disp, deep=True)
+                if len(ds) != 1:
+                    problems.append("dispatch calls per loop iteration: %d (expected exactly 1)" % len(ds))
+                for d in ds:
+                    if sroot(ev, d[3][0]) != (("param", 3), []) or d[2].name != "dispatch":
+                        problems.append("loop body does not call `dispatcher.dispatch(world)` on the dispatcher parameter")
+        outer = [x for x in events if x[0] == "call" and is_disp(x[2])]
         if outer:
-            problems.append("inner dispatcher is dispatched outside the planned loop at %s" % b.loc(outer[0]))
-        cnt = cfg.count(lambda x: x in inner, start=tr.some_bb, ends=[tr.header], within=set(tr.loop)) if inner else (0, 0)
-        if cnt != (1, 1):
-            problems.append("dispatch calls per loop iteration: min %s / max %s (expected exactly 1)" % (cnt and cnt[0], cnt and cnt[1]))
-        for bb in inner:
-            args = bt.call_args(bb)
-            if root(args[0], bt, facts.crate) != (("param", 3), []) or Callee(b.blocks[bb]["term"]["func"]).name != "dispatch":
-                problems.append("loop body does not call `dispatcher.dispatch(world)` on the dispatcher parameter")
-        if plans and not all(cfg.dominates(plans[0], tr.header) for _ in [0]):
-            problems.append("`plan` does not precede the loop")
-    # the plan data is released before the first inner dispatch: it is moved into `plan`
-    if plans:
-        args = bt.call_args(plans[0])
-        op = b.blocks[plans[0]]["term"]["args"][1]
-        if not (op["k"] == "move" and isinstance(args[1], tuple) and args[1][0] == "call" and bt.callee(args[1][1]).name == "system_data"):
+            problems.append("inner dispatcher is dispatched outside the planned loop at %s" % ev.loc(outer[0][1]))
+        # the plan data is released before the first inner dispatch: it is moved into `plan`
+        site = pcall[1]
+        pb = ev.body_of(site)
+        op = pb.blocks[site[1]]["term"]["args"][1] if isinstance(site[1], int) else {}
+        data = Q.strip(ev, pcall[3][1]) if len(pcall[3]) > 1 else None
+        if not (op.get("k") == "move" and Q.is_call(ev, data, "system_data")):
             problems.append("the plan's system data is not moved into `plan` (it would still be borrowed during the inner dispatches)")
-    world_calls = [Callee(t["func"]).name for bb, t in b.normal_calls() if Callee(t["func"]).self_head == A.WORLD or Callee(t["func"]).trait in (A.T_SYSDATA, A.T_DYNSYSDATA)]
-    if world_calls != ["system_data"]:
-        problems.append("the controller borrows from the world through %s (expected a single system_data() moved into plan): a borrow kept across the inner dispatches conflicts with the inner systems" % world_calls)
+        wc = [x[2].name for x in Q.calls_in(events, lambda c: c.self_head == A.WORLD or c.trait in (A.T_SYSDATA, A.T_DYNSYSDATA), deep=True)]
+        if wc != ["system_data"]:
+            problems.append("the controller borrows from the world through %s (expected a single system_data() moved into plan): a borrow kept across the inner dispatches conflicts with the inner systems" % wc)
     report.ob(rule, "RUN/<MultiDispatcher as BatchController>::run/loop", not problems,
-              "; ".join(problems) if problems else "plan once, data moved into plan, `for _ in 0..n` with one dispatcher.dispatch(world) per iteration",
+              "; ".join(sorted(set(problems))) if problems else "plan once, data moved into plan, `for _ in 0..n` with one dispatcher.dispatch(world) per iteration",
               site=b.loc(), config=config)
     # blanket RunNow::run_now: one fetch, moved into the single run
     b = F.blanket(facts, A.T_RUNNOW, "run_now")
